@@ -344,6 +344,29 @@ impl Source for Mem {
                 if !silent {
                     trace(Ev::ReadDir(id.into(), format!("err:{}", kind_name(e.kind()))));
                 }
+                // every other failure of a directory that exists arrives in the middle of the
+                // listing: what the directory holds has been handed out, then the error comes (to
+                // the caller it is the same failed read_dir)
+                static LATE: std::sync::atomic::AtomicUsize = std::sync::atomic::AtomicUsize::new(0);
+                if e.kind() != io::ErrorKind::NotFound && LATE.fetch_add(1, Ordering::Relaxed) % 2 == 1 {
+                    let v: Vec<OwnedDirEntry> = {
+                        let s = self.st();
+                        let mut v = vec![];
+                        if s.dirs.iter().any(|(d, _)| d == id) {
+                            for ((fid, ext), _) in &s.files {
+                                if parent_id(fid) == Some(id) {
+                                    v.push(OwnedDirEntry::File(fid.as_str().into(), ext.as_str().into()));
+                                }
+                            }
+                            // (files only: a sub-directory handed out is loaded at once by
+                            // RecursiveDirectory, which the sequential model does not follow)
+                        }
+                        v
+                    };
+                    for x in &v {
+                        f(x.as_dir_entry());
+                    }
+                }
                 Err(e)
             }
         }
@@ -727,7 +750,22 @@ pub fn run_line(cache: AnyCache, words: &[&str]) -> Result<i64, BoxedError> {
         ["load", ty, id] => with_loaded(cache, ty, &unq(id)),
         ["cached", ty, id] => with_cached(cache, ty, &unq(id)),
         ["owned", ty, id] => with_owned(cache, ty, &unq(id)),
-        ["norec", rest @ ..] => cache.no_record(|| run_line(cache, rest)),
+        // recording is a matter of the thread, not of the cache `no_record` is called on: every
+        // other time it is called on a cache that has no reloader at all
+        ["norec", rest @ ..] => {
+            static TOGGLE: std::sync::atomic::AtomicUsize = std::sync::atomic::AtomicUsize::new(0);
+            static PLAIN: std::sync::OnceLock<assets_manager::AssetCache<Mem>> = std::sync::OnceLock::new();
+            if TOGGLE.fetch_add(1, Ordering::Relaxed) % 2 == 0 {
+                cache.no_record(|| run_line(cache, rest))
+            } else {
+                let plain = PLAIN.get_or_init(|| assets_manager::AssetCache::without_hot_reloading(Mem::new_silent(false)));
+                if TOGGLE.load(Ordering::Relaxed) % 4 == 2 {
+                    plain.as_any_cache().no_record(|| run_line(cache, rest))
+                } else {
+                    plain.no_record(|| run_line(cache, rest))
+                }
+            }
+        }
         ["try", rest @ ..] => Ok(run_line(cache, rest).unwrap_or(-7)),
         ["readfile", id, ext] => {
             let src = cache.raw_source();
